@@ -79,7 +79,7 @@ pub fn plan_for(prop: &str, tier: Tier, seed: u64, verif_dir: &str) -> Option<Pl
 				job("lnsim", "deadlines", n(600, 20000)),
 			],
 			level: "exploration".into(),
-			rule: "profiles `receive` (3 real nodes, world and fault mix of C02's `forward` profile: direct, forwarded and two-part payments, claims and explicit fails by the recipient in seeded order relative to message delivery, crashes and restarts of the recipient with stale ChannelManager snapshots, on-chain resolution) and `offchain` (2-3 nodes, no chain activity, boundary amounts). Oracles: C04-1 PaymentClaimable only at the registered recipient, for the complete amount, with a claim window; C04-3 the preimage leaves the node only after claim_funds, PaymentClaimed follows claim_funds made above the deadline and reports the full amount, never without claim_funds; recipient side of the wealth oracle (what PaymentClaimed reported is owned on chain after liquidation). One evaluation = one seeded run (config, schedule and faults all drawn from the run seed; replay executes the recorded action trace). non-trivial = the run executed at least one payment/HTLC to a terminal state or fired at least one fault; distinct = distinct FNV hash of the executed (action kind, actor) sequence.".into(),
+			rule: "profiles `receive` (3 real nodes, world and fault mix of C02's `forward` profile: direct, forwarded and two-part payments, claims and explicit fails by the recipient in seeded order relative to message delivery, crashes and restarts of the recipient with stale ChannelManager snapshots, on-chain resolution; a third of the payments carry a sender-side flaw the recipient must refuse: a flipped bit in the payment secret, the secret of another payment, less than the registered amount, or an onion total larger than the parts actually sent, which must time out), `offchain` (2-3 nodes, no chain activity, boundary amounts) and `deadlines` (see C08: final CLTV values around the acceptance boundary, parts of one payment with different expiries, claims at every height relative to the advertised deadline). Oracles: C04-1 PaymentClaimable only at the registered recipient, for the complete amount, with a claim window, never for a flawed payment; C04-3 the preimage leaves the node only after claim_funds, PaymentClaimed follows claim_funds made above the deadline and reports the full amount, never without claim_funds; recipient side of the wealth oracle (what PaymentClaimed reported is owned on chain after liquidation). One evaluation = one seeded run (config, schedule and faults all drawn from the run seed; replay executes the recorded action trace). non-trivial = the run executed at least one payment/HTLC to a terminal state or fired at least one fault; distinct = distinct FNV hash of the executed (action kind, actor) sequence.".into(),
 			assumptions: t_assumptions.clone(),
 			probes: vec![],
 			exhaustive: false,
